@@ -347,6 +347,18 @@ theorem write_events_are_sets_and_pushes (cfg : Cfg) (s : State V) (sess : Sess 
           · cases hdel s b.target (SData.toJson b.newData) with
             | inl h => exact Or.inl h
             | inr h => obtain ⟨kvs, hj, he⟩ := h; exact Or.inr (Or.inr ⟨b, kvs, rfl, hj, he⟩)
+    | pushNW =>
+      simp only [sstepBack]
+      split
+      · exact Or.inl rfl
+      · simp only [backPush]
+        split
+        · exact Or.inl rfl
+        · split
+          · exact Or.inl rfl
+          · cases hdel s b.target (SData.toJson b.newData) with
+            | inl h => exact Or.inl h
+            | inr h => obtain ⟨kvs, hj, he⟩ := h; exact Or.inr (Or.inr ⟨b, kvs, rfl, hj, he⟩)
     | pushTo c0 =>
       simp only [sstepBack]
       split
@@ -398,6 +410,14 @@ theorem target_stable (cfg : Cfg) (s : State V) (sess : Sess V) (kept : Option S
         split
         · rfl
         · split <;> rfl
+    | pushNW =>
+      simp only [sstepBack]
+      split
+      · rfl
+      · simp only [backPush]
+        split
+        · rfl
+        · split <;> rfl
     | query =>
       simp only [sstepBack]
       split
@@ -438,6 +458,32 @@ theorem handler_writes_only_its_connection (cfg : Cfg) (sc : List (SOp V)) :
     | inr h =>
       rw [← ht]
       exact ih _ _ _ hi.1 hi.2 (fun o ho => hg o (by simp [ho])) (fun o ho => hn o (by simp [ho])) e h
+
+/-- … and at the end of the run — e.g. when it is resumed after an asynchronous step and goes on
+with the session it was given — the session object still addresses that same connection: a
+handler's session operations land on the connection whose request it is handling -/
+theorem session_keeps_its_connection (cfg : Cfg) (sc : List (SOp V)) :
+    ∀ (s : State V) (sess : Sess V) (kept : Option String), Inv true s → SessInv true sess →
+      GuardScript true sc → (∀ op ∈ sc, NodeSOp op) →
+      (runScript cfg s sess kept sc).sess.target = sess.target := by
+  induction sc with
+  | nil => intro s sess kept _ _ _ _; rfl
+  | cons op ops ih =>
+    intro s sess kept hs hse hg hn
+    have hi := sstep_inv cfg kept hs hse (hg op (by simp))
+    have ht := target_stable cfg s sess kept op hs hse (hn op (by simp))
+    simp only [runScript]
+    rw [ih _ _ _ hi.1 hi.2 (fun o ho => hg o (by simp [ho])) (fun o ho => hn o (by simp [ho])), ht]
+
+/-- a push the handler does not wait for has exactly the effect of an awaited one, at once: it is
+on the back→front channel before anything the handler sends afterwards (its answer), so what a
+handler pushed before it answered is in the connection's map when the answer is relayed -/
+theorem push_without_waiting_is_delivered_at_once (cfg : Cfg) (s : State V) (b : Back V) (kept : Option String) :
+    (sstep cfg s (.back b) kept .pushNW).st = (sstep cfg s (.back b) kept .push).st ∧
+    (sstep cfg s (.back b) kept .pushNW).sess = (sstep cfg s (.back b) kept .push).sess ∧
+    (sstep cfg s (.back b) kept .pushNW).evs = (sstep cfg s (.back b) kept .push).evs := by
+  simp only [sstep, sstepBack]
+  split <;> exact ⟨rfl, rfl, rfl⟩
 
 /-- a client message handled inside the guard — front-local or forwarded — changes no other
 connection's map -/
